@@ -93,6 +93,21 @@ def gen_rows(rng, n, first_id=1, year=2025, allow_rich=False, neg_rate=0.2):
         })
         if three:
             rows[-1]['style'] = 'plain3'
+    if allow_rich and n >= 3 and rng.random() < 0.25:
+        # a statement in which nearly every description carries the same punctuation: apostrophe-wrapped words, semicolons, bars,
+        # backslashes (what guesses a file's dialect from character frequencies would latch on to) - plus one cell that really
+        # needs its quotes.  All of it is ordinary description text.
+        prof = rng.choice(['apostrophes', 'apostrophes', 'semicolons', 'bars', 'backslashes', 'tabs'])
+        for r in rows:
+            if rng.random() < 0.85:
+                tail = ' r%d' % r['id']
+                body = r['desc'][:-len(tail)] if r['desc'].endswith(tail) else r['desc']
+                r['desc'] = {'apostrophes': rng.choice(["TOYS 'R' US", "PICK 'N' SAVE", "'" + body.strip('"') + "'"]),
+                             'semicolons': 'POS; ' + body, 'bars': 'CARD | ' + body, 'backslashes': 'C:\\PAY\\' + body.strip(),
+                             'tabs': 'REF\t' + body}[prof] + tail
+        k = rng.randrange(len(rows))
+        tail = ' r%d' % rows[k]['id']
+        rows[k]['desc'] = rng.choice(['ACME SUPPLY, INC', 'SMITH, JONES & CO', 'A, B']) + tail
     return rows
 
 
